@@ -163,8 +163,32 @@ def jobs(tier, seed):
     return js
 
 
+def active_rules(ro):
+    """Which rules the options switch on, derived from the options alone (never from what
+    the implementation happens to report)."""
+    act = {'scheme', 'recursive', 'follow_ftp', 'span_hosts'}
+    if ro.get('no_parent'):
+        act.add('parent')
+    if ro.get('domains') or ro.get('exclude_domains'):
+        act.add('domains')
+    if ro.get('hostnames') or ro.get('exclude_hostnames'):
+        act.add('hostnames')
+    if ro.get('tries'):
+        act.add('tries')
+    if (ro.get('level') and ro.get('recursive')) or ro.get('page_requisites_level'):
+        act.add('level')
+    if ro.get('accept_regex') or ro.get('reject_regex'):
+        act.add('regex')
+    if ro.get('include_directories') or ro.get('exclude_directories'):
+        act.add('directories')
+    if ro.get('accept') or ro.get('reject'):
+        act.add('filename')
+    return act
+
+
 def check_pairs(demux, fetch_rule, ro, pairs, res, tag, seen):
     from wpull.url import URLInfo
+    active = active_rules(ro)
     for url, r in pairs:
         ui = URLInfo.parse(url)
         rec = make_record(ui.url, r)
@@ -191,12 +215,15 @@ def check_pairs(demux, fetch_rule, ro, pairs, res, tag, seen):
         if v is None and bool(info['verdict']) != all(bool(x) for x in info['map'].values()):
             v = 'verdict %s is not the conjunction of the filter results' % info['verdict']
             cls_sig = 'conjunction'
+        active_fails = [k for k in failed_ref if k in active]
+        if v is None and bool(info['verdict']) and active_fails:
+            v = 'verdict is True although the active rules %s reject the URL' % active_fails
+            cls_sig = 'verdict-too-permissive'
         if v is None:
             # (b) redirect waiver
             for is_redirect in (False, True):
                 got, reason, _ = fetch_rule.consult_filters(ui, rec, is_redirect=is_redirect)
-                present = {NAMEMAP[c] for c in info['map']}
-                fails = [k for k in failed_ref if k in present]
+                fails = active_fails
                 exp = (not fails) or (is_redirect and fails == ['span_hosts'])
                 if bool(got) and not exp:
                     v = ('consult_filters(is_redirect=%s) gives %s with failing rules %s'
@@ -309,6 +336,10 @@ E2E = {
                                  domains=['a.test', 'b.test'], reject_regex='secret'), 302,
                 True),
     'l1-302': (['-r', '-l', '1'], dict(recursive=True, level=1), 302, True),
+    'exh-307': (['-r', '--exclude-hostnames', 'b.test'],
+                dict(recursive=True, exclude_hostnames=['b.test']), 307, True),
+    'rej-301': (['-r', '--reject-regex', 'landing|secret2'],
+                dict(recursive=True, reject_regex='landing|secret2'), 301, True),
 }
 
 
